@@ -54,7 +54,7 @@ void pmc_run(const char* config) {
     if (st.kind == 'M') st.cm = new ChanM(0, 0); else if (st.kind == 'B') st.cb = new ChanB(0, 0); else st.cf = ChanF::create(2, 0, 0);
     pmc_window(0);
     mv_init(); mvp::use_fast_stacks(true);
-    mv_tso(tso);
+    mv_tso(tso); mv_switch_points(0);     // built with -DPHOTON_VERIF for the TSC hook only
     mv_on_deadlock = on_deadlock;
     st.prog.run(body);
     std::vector<int> all;
